@@ -113,6 +113,12 @@ def run(ctx):
             if _ends_raising(h.body) or (only_si and f.is_generator):
                 continue
             ctx.violate("R1", f"{f.name}: the handler `except {src_of(h.type) if h.type is not None else ''}` can complete without raising: the error is swallowed and the caller gets a (shorter) result", f, h)
+        # nothing on the API load path may change the warning filters: a LoadWarning escalated to an error by the caller
+        # must be raised inside the parser (and funnelled), not recorded and re-issued outside the funnel
+        for g in [f] + [d_ for dd in f.decorators for r_ in [prog.resolve_expr(None, f.module, dd.func if isinstance(dd, ast.Call) else dd)] if r_ and r_[0] == "func" for d_ in [r_[1]] + list(r_[1].nested.values())]:
+            for cs in g.calls:
+                if cs.external in ("warnings.simplefilter", "warnings.filterwarnings", "warnings.resetwarnings"):
+                    ctx.violate("R1", f"{g.name} changes the warning filters ({cs.external}) around the loader: a warning the caller turned into an error is no longer raised inside the funnel but re-issued outside it, so a LoadWarning (not a LoadError) escapes", g, cs.node)
         # decorators are transparent
         for d in f.decorators:
             r = prog.resolve_expr(None, f.module, d.func if isinstance(d, ast.Call) else d)
